@@ -102,8 +102,16 @@ class Job(object):
         cmd += ["-DVX_PART=%s" % P.PART_DEFINE[self.part]] if self.part else []
         cmd += spec.get("flags", []) + self.extra_flags
         srcs = [os.path.join(HARNESS, s) for s in spec["sources"]]
-        cmd += srcs + ["-o", out] + spec.get("libs", [])
+        objs = [os.path.join(os.path.dirname(out), os.path.basename(c) + ".o") for c in spec.get("c_sources", [])]
+        cmd += srcs + objs + ["-o", out] + spec.get("libs", [])
         return cmd
+
+    def c_compile_cmds(self, out):
+        spec = P.TUS[self.tu]
+        cmds = []
+        for c in spec.get("c_sources", []):
+            cmds.append(["gcc", "-O1", "-w", "-fno-builtin", "-c", os.path.join(HARNESS, c), "-o", os.path.join(os.path.dirname(out), os.path.basename(c) + ".o")])
+        return cmds
 
     def key(self):
         h = hashlib.sha256()
@@ -125,8 +133,13 @@ def build_job(job):
         return job
     os.makedirs(d, exist_ok=True)
     cmd = job.compile_cmd(exe)
+    pre = b""
+    for cc in job.c_compile_cmds(exe):
+        pc = subprocess.run(cc, stdout=subprocess.PIPE, stderr=subprocess.STDOUT)
+        pre += (" ".join(cc) + "\n").encode() + pc.stdout
     p = subprocess.run(cmd, stdout=subprocess.PIPE, stderr=subprocess.STDOUT)
     with open(job.build_log, "wb") as fh:
+        fh.write(pre)
         fh.write((" ".join(cmd) + "\n").encode())
         fh.write(p.stdout)
     job.build_ok = p.returncode == 0
